@@ -262,10 +262,11 @@ class DShape:
     unmet: bool = False        # an extra clause that is never used (by-value: verification must fail inside)
     nested: bool = False       # the answer of req0 itself calls a provided method on the mock it receives
     assoc_const: bool = False  # the body reads an associated const that has a default and is overridden in the attribute
+    weak: bool = False         # Rc/Arc: a Weak handle is alive during the call (it is not an owner)
 
     def key(self):
         return json.dumps([self.receiver, self.params, self.body_calls, self.route, self.partial, self.sole_owner,
-                           self.borrowed_first, self.direct_calls, self.unmet, self.nested, self.assoc_const])
+                           self.borrowed_first, self.direct_calls, self.unmet, self.nested, self.assoc_const, self.weak])
 
 
 def d_supported(s: DShape):
@@ -373,8 +374,10 @@ pub trait Tr {{
         pre_calls.append(f'let d = u.req0(55); ev({idx}, "direct", &[d.to_string()], &[]);')
     by_value = s.receiver in ("owned", "box", "rc", "arc")
     wrap = {"ref": "", "mut": "", "pin": "", "owned": "", "box": "let u = Box::new(u);",
-            "rc": "let u = std::rc::Rc::new(u);" + ("" if s.sole_owner else " let second = u.clone();"),
-            "arc": "let u = std::sync::Arc::new(u);" + ("" if s.sole_owner else " let second = u.clone();")}[s.receiver]
+            "rc": "let u = std::rc::Rc::new(u);" + ("" if s.sole_owner else " let second = u.clone();")
+                  + (" let _weak = std::rc::Rc::downgrade(&u);" if s.weak else ""),
+            "arc": "let u = std::sync::Arc::new(u);" + ("" if s.sole_owner else " let second = u.clone();")
+                   + (" let _weak = std::sync::Arc::downgrade(&u);" if s.weak else "")}[s.receiver]
     recv_expr = {"pin": "std::pin::Pin::new(&mut u)"}.get(s.receiver, "u")
     mut = "mut " if s.receiver in ("mut", "pin") else ""
     if by_value:
@@ -500,6 +503,8 @@ def default_shapes(rng: random.Random, n):
         )
         if s.receiver not in ("rc", "arc"):
             s.sole_owner = True
+        else:
+            s.weak = rng.random() < 0.4
         if not d_supported(s):
             s.unmet = False
         if s.route == "clause_next" and s.direct_calls and not s.borrowed_first:
